@@ -15,14 +15,14 @@ def main(argv=None):
         res = {}
         for i in idxs:
             seed = runner.run_seed(prop, tier, base, i)
-            res[i] = runner.run_plan(eng, eng.generate(seed, tier, prop), prop).digest
+            res[i] = runner.run_plan_iso(eng, eng.generate(seed, tier, prop), prop).digest
         print(json.dumps(res))
         return 0
     with open(argv[0]) as f:
         rec = json.load(f)
     prop = rec["property"]
     eng = runner.engine(rec["engine"])
-    out = runner.run_plan(eng, rec["plan"], prop)
+    out = runner.run_plan_iso(eng, rec["plan"], prop)
     print("replay property=%s status=%s oracle=%s key=%s step=%d digest=%s" %
           (prop, out.status, out.oracle, out.key, out.step, out.digest))
     if out.detail:
